@@ -53,6 +53,13 @@ def table_rows():
     return watch_facts.rows(extract.src, extract.strip_comments)
 
 
+def table_quirks():
+    """(perDb, rewatchKeeps) as the translator reads them from the source (= Gen.watchQ), or a string"""
+    import extract
+    import watch_facts
+    return watch_facts.quirks(extract.src, extract.strip_comments, extract.fn_body)
+
+
 def b(x):
     return x if isinstance(x, bytes) else str(x).encode()
 
@@ -249,7 +256,9 @@ class Sess:
                 continue
             fn, param, key, pf = op
             present = before[pf if pf is not None else key] is not None
-            toks.append("k:%s:%s:%s:%d:%d:%s" % (fn, param, hx(key), int(done), int(present), self.chg(before[key], after[key], now)))
+            ch = self.chg(before[key], after[key], now)
+            # a key that changed proves the call was made, whatever the reply looked like (EVAL converts replies)
+            toks.append("k:%s:%s:%s:%d:%d:%s" % (fn, param, hx(key), int(done or ch != "-"), int(present), ch))
         return toks
 
     @staticmethod
@@ -304,7 +313,8 @@ class Sess:
             m = self.ask(("select %d %d %s" % (c, now, args[1].decode())) if name == "SELECT" else "cmd %d %d" % (c, now))
             st = self.record("queue", c, args, impl, m)
             if impl != m:
-                self.disagree.append({"cell": self.cell, "step": st, "why": "reply of a command sent inside MULTI"})
+                self.disagree.append({"cell": self.cell, "step": st, "why": "reply of a command sent inside MULTI", "impl": impl, "code": m,
+                                      "steps": list(self.steps[self.cell_start:]), "upto": len(self.steps)})
             return st
         cl = classify(self.inner(args))
         if cl is None:
@@ -355,7 +365,8 @@ class Sess:
                 self.db[c] = int(args[1])
         st = self.record("ctl", c, args, impl, m)
         if impl != m:
-            self.disagree.append({"cell": self.cell, "step": st, "why": "reply of a transaction-control command"})
+            self.disagree.append({"cell": self.cell, "step": st, "why": "reply of a transaction-control command", "impl": impl, "code": m,
+                                  "steps": list(self.steps[self.cell_start:]), "upto": len(self.steps)})
         return st
 
     def do_exec(self, c, args):
@@ -394,7 +405,8 @@ class Sess:
             self.intx[c] = False
             self.watching[c] = False
             self.queue[c] = []
-        info = {"cell": self.cell, "step": st, "impl": impl, "code": code, "spec": verdict}
+        info = {"cell": self.cell, "step": st, "impl": impl, "code": code, "spec": verdict,
+                "steps": list(self.steps[self.cell_start:]), "upto": len(self.steps)}
         if impl == "nil" and verdict == "mustRun":
             self.oracle.append(dict(info, kind="false-abort", why="EXEC returned nil although nothing ran on any watched key"))
         elif impl.startswith("array") and verdict == "mustNil":
@@ -441,17 +453,18 @@ class Sess:
         self.ask("cmd %d %d k:lpop:key:%s:1:1:d" % (popper, now, hx(key)))
 
     def wait_sweep(self, db, key):
-        """sweeper running: wait for a full pass that started after now, check the key is physically gone, tell the model"""
+        """let the sweeper run until it has removed the (expired) key, pause it again, tell the model"""
         self.steps.append({"kind": "wait-sweep", "db": db, "key": hx(key)})
-        p0 = self.ctl.cmd("VERIF", "SWEEPER", "PASSES")[1]
-        t_end = time.monotonic() + 6
-        while time.monotonic() < t_end and self.ctl.cmd("VERIF", "SWEEPER", "PASSES")[1] < p0 + 2:
-            time.sleep(0.02)
         if self.ctl_db != db:
             self.ctl.cmd("SELECT", str(db))
             self.ctl_db = db
+        self.ctl.cmd("VERIF", "SWEEPER", "RESUME")
+        t_end = time.monotonic() + 6
+        while time.monotonic() < t_end and self.ctl.cmd("TYPE", key) != ("s", b"none"):
+            time.sleep(0.01)
+        self.ctl.cmd("VERIF", "SWEEPER", "PAUSE")
         if self.ctl.cmd("TYPE", key) != ("s", b"none"):
-            raise InternalError("sweeper did not remove the expired key within two passes")
+            raise InternalError("sweeper did not remove the expired key within 6 s")
         self.ask("sweep %d %d %s" % (db, self.now(), hx(key)))
 
     # ---- cells
@@ -706,26 +719,24 @@ def scenarios(s, wk, same_k, diff_k, rep):
     s.do(B, ["PEXPIRE", wk, "150"])
     s.do(A, ["WATCH", wk])
     s.sleep(200)
-    s.ctl_cmd("VERIF", "SWEEPER", "RESUME")
     s.wait_sweep(0, wk)
-    s.ctl_cmd("VERIF", "SWEEPER", "PAUSE")
     finish_tx(s, "s")
 
 
-def select_scenarios(rows, wk, same_k, rep, r):
+def select_scenarios(rows, quirks, wk, same_k, rep, r):
     """WATCH / UNWATCH / EXEC across SELECT (DESIGN row 33): each on a FRESH server, because the outcome
     depends on the exact watcher counts of the shards involved.  Returns (oracle failures, disagreements, evals)."""
     out_o, out_d, evals, samples = [], [], 0, []
 
     def fresh(name):
-        s = Sess(rows, "c08s")
+        s = Sess(rows, "c08s", quirks)
         s.begin({"kind": "scenario", "name": name, "key": hx(wk)})
         return s
 
     def done(s):
         nonlocal evals
-        out_o.extend(dict(o, steps=s.cell_steps()) for o in s.oracle)
-        out_d.extend(dict(o, steps=s.cell_steps()) for o in s.disagree)
+        out_o.extend(dict(o, fresh_server=True) for o in s.oracle)
+        out_d.extend(dict(o, fresh_server=True) for o in s.disagree)
         evals += s.evals
         for e in s.execs:
             rep.nontrivial(("scenario", s.cell["name"], e["impl"].split()[0], e["model"]))
@@ -786,16 +797,35 @@ def select_scenarios(rows, wk, same_k, rep, r):
 
 
 # ------------------------------------------------------------------ verdicts
+def changed_ops(o):
+    """(fn:param) of the operations that changed the watched key after the last WATCH of the watcher in this cell"""
+    key = (o.get("cell") or {}).get("key")
+    steps = o.get("steps") or []
+    last = max([i for i, st in enumerate(steps) if st.get("c") == A and st.get("text", "").upper().startswith("WATCH")], default=-1)
+    out = set()
+    for st in steps[last + 1:]:
+        for t in st.get("ops", []):
+            f = t.split(":")
+            if f[0] == "f":
+                out.add("flush_db:*")
+            elif f[0] == "k" and f[3] == key and f[6] != "-":
+                out.add("%s:%s" % (f[1], f[2]))
+    return out
+
+
 def match_finding(o, fs):
-    """an oracle failure is known iff a finding names its shape: `unsound:<CMD,...>` (the command that changed the
-    watched key, matrix cells), `scenario:<name,...>` (named histories), each together with the failure kind"""
+    """an oracle failure is known iff a finding names its shape:
+      `unsound:<CMD,...>` + `fn`: a matrix cell whose command is one of CMD and in which the watched key was changed
+           by one of the listed (storage function : key parameter) pairs — and by no other one;
+      `scenario:<name,...>` (+ optional `kind`): the named history, failing in that way"""
     cell = o.get("cell") or {}
     for f in fs:
-        m = f.get("match", "")
-        kind, _, names = m.partition(":")
+        kind, _, names = f.get("match", "").partition(":")
         names = names.split(",")
-        if cell.get("kind") in ("matrix", "other-key") and kind == o["kind"] and cell.get("cmd", "").split("-")[0] in names:
-            return f
+        if cell.get("kind") in ("matrix", "other-key") and kind == o["kind"] == "unsound" and cell.get("cmd", "").split("-")[0] in names:
+            ch = changed_ops(o)
+            if ch and ch <= set(f.get("fn", "").split(",")):
+                return f
         if cell.get("kind") == "scenario" and kind == "scenario" and cell.get("name") in names and f.get("kind", o["kind"]) == o["kind"]:
             return f
     return None
@@ -823,9 +853,9 @@ def run_steps(s, steps):
             s.wait_sweep(st["db"], unhx(st["key"]))
 
 
-def reproduce_alone(rows, o, steps):
+def reproduce_alone(rows, quirks, o, steps):
     """does the cell fail the same way on a fresh server? (then its own steps are a minimal replay)"""
-    s = Sess(rows, "c08r")
+    s = Sess(rows, "c08r", quirks)
     try:
         s.cell = o.get("cell")
         run_steps(s, steps)
@@ -863,9 +893,16 @@ def main(tier, seed):
         return rep.finish()
     rep.extra["table_nonmarking_writes"] = sorted("%s:%s" % (r["name"], p) for r in rows if r["mutates"] for p in (r["keyParams"] or ["*"])
                                                   if (p not in r["marked"] if r["keyParams"] else not r["marksAll"]))
+    quirks = table_quirks()
+    if isinstance(quirks, str):
+        rep.violation("translator no longer recognises how the watch list is kept (%s): Gen.watchQ not extracted" % quirks,
+                      {"theorem_errors": errs[:10], "log_tail": log[-2000:]}, no_input=True)
+        return rep.finish()
+    quirks = (int(quirks[0]), int(quirks[1]))
+    rep.extra["watch_list_quirks"] = {"perDb": bool(quirks[0]), "rewatchKeeps": bool(quirks[1])}
     r = Rng(seed)
     wk, same_k, diff_k, other_k = pick_keys(r)
-    s = Sess(rows)
+    s = Sess(rows, "c08", quirks)
     oracle, disagree = [], []
     try:
         # the model's shard function against the independent FNV-1a of common.py
@@ -928,15 +965,11 @@ def main(tier, seed):
             rep.count("other-key.flush.%s" % st["impl"].split()[0])
         # ---- scenarios
         scenarios(s, wk, same_k, diff_k, rep)
-        for o in s.oracle:
-            pass
         oracle = [dict(o) for o in s.oracle]
         disagree = [dict(o) for o in s.disagree]
         rep.evaluations += s.evals
         rep.traces_validated += len(cells) + n_other
-        for e in [x for x in s.steps if x["kind"] == "exec"]:
-            pass
-        so, sd, ev = select_scenarios(rows, wk, same_k, rep, r)
+        so, sd, ev = select_scenarios(rows, quirks, wk, same_k, rep, r)
         oracle += so
         disagree += sd
         rep.evaluations += ev
@@ -955,16 +988,12 @@ def main(tier, seed):
         rep.extra["model_disagreements"] = len(disagree)
         rep.extra["findings_not_reproduced"] = sorted(f["id"] for f in fs if f["id"] not in known)
         if new:
-            # smallest first; try to reproduce the cell alone on a fresh server for a minimal replay
-            def steps_of(o):
-                return o.get("steps") or steps_between(s, o)
-            new.sort(key=lambda o: len(steps_of(o)))
+            # smallest first; a cell that fails the same way alone on a fresh server is its own minimal replay
+            new.sort(key=lambda o: len(o["steps"]))
             o = new[0]
-            cell_steps = steps_of(o)
-            alone = reproduce_alone(rows, o, cell_steps)
-            steps = cell_steps if alone else s.steps[:s.steps.index(cell_steps[-1]) + 1] if cell_steps and cell_steps[-1] in s.steps else cell_steps
-            obj = replay_obj(o, steps)
-            obj["reproduces_on_fresh_server"] = alone
+            alone = o.get("fresh_server") or reproduce_alone(rows, quirks, o, o["steps"])
+            obj = replay_obj(o, o["steps"] if alone else s.steps[:o["upto"]])
+            obj["reproduces_on_fresh_server"] = bool(alone)
             obj["more"] = [{"cell": x.get("cell"), "kind": x["kind"], "impl": x.get("impl"), "spec": x.get("spec")} for x in new[1:12]]
             obj["lean_errors"] = errs[:5]
             rep.violation("WATCH: %s (%s)" % (o["why"], json.dumps(o.get("cell"))[:160]), obj)
@@ -974,22 +1003,10 @@ def main(tier, seed):
         elif disagree:
             rep.violation("correspondence Ferrous.Watch.step (with Gen.storageFns) vs server broke (%d disagreements) although the oracle holds" % len(disagree),
                           {"correspondence": "drv_watch vs ferrous over TCP", "disagreements": [{k: v for k, v in d.items() if k != "steps"} for d in disagree[:8]],
-                           "steps_of_first": steps_between(s, disagree[0]) if not disagree[0].get("steps") else disagree[0]["steps"]}, no_input=True)
+                           "steps_of_first": disagree[0]["steps"]}, no_input=True)
     finally:
         s.close()
     return rep.finish()
-
-
-def steps_between(s, o):
-    """the steps of the cell in which `o` happened (cells are delimited by the FLUSHALL of Sess.begin)"""
-    st = o["step"]
-    if st not in s.steps:
-        return [st]
-    i = s.steps.index(st)
-    j = i
-    while j > 0 and not (s.steps[j]["kind"] == "write" and s.steps[j].get("text") == "FLUSHALL" and s.steps[j]["c"] == B and j < i):
-        j -= 1
-    return s.steps[j + 1:i + 1]
 
 
 def replay(path):
@@ -1005,7 +1022,10 @@ def replay(path):
     if isinstance(rows, str):
         raise InternalError("translator: " + rows)
     fs = findings()
-    s = Sess(rows, "c08replay")
+    quirks = table_quirks()
+    if isinstance(quirks, str):
+        raise InternalError("translator: " + quirks)
+    s = Sess(rows, "c08replay", (int(quirks[0]), int(quirks[1])))
     try:
         s.cell = rp.get("cell")
         run_steps(s, rp["steps"])
